@@ -114,7 +114,7 @@ class SwitchNode(Node):
             self._store_key(key, value, fast, unresolved)
 
         if no_key_seen:
-            self._store_key("#default", no_key_seen[-1], fast, unresolved)
+            self._store_key("#default", no_key_seen[len(no_key_seen) - 1], fast, unresolved)
 
         self.unresolved = tuple(unresolved)
         self.fast = fast
